@@ -96,12 +96,12 @@ def markers_only(ev):
     return [e for e in ev if e != "E"]
 
 
-def gen_session(seed, i, tier):
-    rng = vsim.Rng(seed, "c13-session", i)
+def gen_session(seed, i, tier, special=None):
+    rng = vsim.Rng(seed, "c13-session", i, special or "")
     dialect = rng.weighted([("axllib", 7), ("libaldor", 3), ("axllib-verbose", 2)])
     n = rng.loguniform(5, 40)
-    bad = rng.choice([0, 0, 10, 20, 30])
-    g = sessgen.Gen(rng.fork("forms"), dialect)
+    bad = rng.choice([0, 0, 10, 20, 30]) if not special else 25
+    g = sessgen.Gen(rng.fork("forms"), dialect, special=special)
     forms = g.generate(n, bad)
     aux = dict(g.files)
     chunks = [rng.loguniform(1, 64) for _ in range(rng.range(1, 40))] if rng.chance(3, 4) else None
@@ -123,7 +123,7 @@ def gen_session(seed, i, tier):
         plan.append("heapbase " + rng.choice(["200000000000", "31000000b000", "2aaa00007000"]))
     final_nl = not rng.chance(1, 5)
     cut = rng.range(1, len(forms)) if rng.chance(1, 2) else None
-    return {"i": i, "dialect": dialect, "forms": forms, "chunks": chunks, "plan": plan, "final_nl": final_nl, "cut": cut, "files": aux}
+    return {"i": i, "dialect": dialect, "special": special, "forms": forms, "chunks": chunks, "plan": plan, "final_nl": final_nl, "cut": cut, "files": aux}
 
 
 def judge_session(binfo, scratch, s):
@@ -219,6 +219,9 @@ def main(argv):
 
         nsess = int(os.environ.get("VERIF_C13_SESSIONS", 0)) or (500 if tier == "quick" else 8000)
         sessions = [gen_session(seed, i, tier) for i in range(nsess)]
+        # dedicated sessions for a known finding (an import inside a rejected step survives when the
+        # type was used before): kept apart, with a key of their own, so that they mask nothing else
+        sessions += [gen_session(seed, nsess + j, tier, special="stale-import") for j in range(6 if tier == "quick" else 60)]
         # regression corpus
         import glob
         for f in sorted(glob.glob(os.path.join(vsim.VERIF, "findings", "C13-*", "*.json"))):
@@ -237,7 +240,8 @@ def main(argv):
         by_key = {}
         for i, (v, info) in enumerate(results):
             for cls, detail in v:
-                by_key.setdefault("%s:%s" % (sessions[i]["dialect"], cls), []).append((i, detail))
+                tag = (sessions[i].get("special") + ":") if sessions[i].get("special") else ""
+                by_key.setdefault("%s%s:%s" % (tag, sessions[i]["dialect"], cls), []).append((i, detail))
         for key in sorted(by_key):
             text = out.classify(key)
             ids = by_key[key]
@@ -247,7 +251,7 @@ def main(argv):
             ids.sort(key=lambda t: len(sessions[t[0]]["forms"]))
             i, detail = ids[0]
             s = sessions[i]
-            cls = key.split(":", 1)[1]
+            cls = key.rsplit(":", 1)[1]
 
             def fails(fl):
                 s2 = dict(s, forms=renumber(fl), cut=None)
@@ -284,7 +288,7 @@ def main(argv):
                     s2 = s3
             rp = vsim.write_replay(PID, "seed%d-s%d" % (seed, i), {
                 "property": PID, "seed": seed, "key": key, "detail": detail, "source_key": binfo["key"],
-                "session": dict((k, s2.get(k)) for k in ("dialect", "chunks", "plan", "final_nl", "cut", "files")),
+                "session": dict((k, s2.get(k)) for k in ("dialect", "special", "chunks", "plan", "final_nl", "cut", "files")),
                 "forms": [f.to_json() for f in s2["forms"]],
                 "script": sessgen.script_of(s2["forms"], s2["dialect"], s2["final_nl"]),
                 "other_failing_sessions": len(ids) - 1})
